@@ -78,10 +78,10 @@ def handle (case obs : List String) : String × String :=
     match nat? cs with
     | none => bad
     | some c =>
-      let model := if Utf8.isScalar c then hex (Utf8.encodeScalar c) else "none"
+      let model := if Utf8.isScalar c then "u " ++ hex (Utf8.encodeScalar c) else "none"
       let v := match obs with
         | ["none"] => [("rust-rejects-only-non-scalars", !Utf8.isScalar c)]
-        | [o] => match unhex o with
+        | ["u", o] => match unhex o with
           | some b => [("rust-char-encoding-is-valid-utf8", Utf8.valid b), ("rust-accepts-only-scalars", Utf8.isScalar c)]
           | none => [("observed-parses", false)]
         | _ => [("observed-parses", false)]
